@@ -1,0 +1,28 @@
+//go:build verif
+
+package pebbledb
+
+import "github.com/cockroachdb/pebble"
+
+// Verification hooks (build tag "verif"). With the tag off these are empty
+// functions (verif_off.go) and the package behaves exactly as before.
+
+// VerifPebbleOptionsHook, when set, may adjust the Pebble options (e.g. inject
+// an in-memory crash-consistent file system) before the database is opened.
+var VerifPebbleOptionsHook func(*pebble.Options)
+
+// VerifGateHook, when set, is called at named points inside store operations.
+// A blocking hook acts as a scheduler gate for interleaving replay.
+var VerifGateHook func(point string)
+
+func verifPebbleOptions(o *pebble.Options) {
+	if h := VerifPebbleOptionsHook; h != nil {
+		h(o)
+	}
+}
+
+func verifGate(point string) {
+	if h := VerifGateHook; h != nil {
+		h(point)
+	}
+}
